@@ -1,4 +1,4 @@
-from props.common import vault_obligations, TRUSTED as _T
+from props.common import vault_obligations, krow_obligations, ktab_obligations, TRUSTED as _T
 
 PROPERTY = "C10"
 EXPLANATION = (
@@ -9,4 +9,4 @@ EXPLANATION = (
 OUTSIDE = "Container.clone, XmlPart.clone, Document.clone (zip loading, deepcopy of byte parts): I/O, not encodable"
 ASSUMPTIONS = ["pre-states are run-length encodings with repeats >= 1 whose maps equal make_cache_map(XML)"]
 TRUSTED = _T
-OBLIGATIONS = vault_obligations(10)
+OBLIGATIONS = vault_obligations(10) + krow_obligations(10) + ktab_obligations(10, 40, 'nr')
